@@ -67,6 +67,21 @@ Proof.
   - right. exists tr. rewrite <- Hcr. auto.
 Qed.
 
+(* two grants of one publisher with DISJOINT windows are not one grant spanning both: a version published in the gap gets
+   nothing from either, for every store (so an aggregate or a multi-URL import that merged them would certify something new) *)
+Theorem C06_gap_between_windows_gets_nothing : forall u s1 e1 s2 e2 d,
+  (e1 < d)%Z -> (d < s2)%Z ->
+  wildcard_guard u u s1 e1 d = false /\ wildcard_guard u u s2 e2 d = false /\
+  trusted_guard u u s1 e1 d = false /\ trusted_guard u u s2 e2 d = false.
+Proof.
+  intros u s1 e1 s2 e2 d H1 H2. unfold wildcard_guard, trusted_guard. rewrite N.eqb_refl. cbn [andb].
+  assert (A : Z.leb d e1 = false) by (apply Z.leb_gt; exact H1).
+  assert (B : Z.leb s2 d = false) by (apply Z.leb_gt; exact H2).
+  rewrite A, B. rewrite !andb_false_r. cbn [andb]. auto.
+Qed.
+Example C06_merged_window_would_grant : wildcard_guard 1 1 10 20 25 = false /\ wildcard_guard 1 1 30 40 25 = false /\ wildcard_guard 1 1 10 40 25 = true.
+Proof. vm_compute. auto. Qed.
+
 Example C06_nonvacuous :
   exists e, In e (all_edges w_table w_store_b) /\ is_grant (fe_origin e) = true /\ fe_to e = Some 1.
 Proof. eexists. split; [vm_compute; left; reflexivity|]. split; reflexivity. Qed.
@@ -91,3 +106,4 @@ Qed.
 Print Assumptions C06_grant_edges.
 Print Assumptions C06_only_grants_use_publishers.
 Print Assumptions C06_certified_by_grants_alone.
+Print Assumptions C06_gap_between_windows_gets_nothing.
